@@ -222,3 +222,183 @@ def loopback(ctx):
                                                                 "data in flight", ops=list(ops), steps=k, closer=closer))
     finally:
         gc.enable()
+
+
+# ------------------------------------------------------------------------------------------------------------
+# three parties: the owner A holds an object ONLY through its connection tables (made by a factory method); the gifter B
+# passes its proxy on to C and forgets it at EVERY point of the introduction (their-reference queued / delivered,
+# C's lookup on its way to A / answered, decgift on its way / delivered), under three link priorities (so that B's release
+# can overtake C's lookup).  "keeps it reachable ... for as long as the other side holds a live proxy or a message carrying
+# the reference is in flight": the object must stay alive until C has its proxy and for as long as C holds it, calls reach
+# it, and once C lets go and traffic drains nothing pins it.
+def _step_one(net, prefer):
+    """deliver one (coalesced) segment, choosing the first deliverable link in `prefer` order (others afterwards)"""
+    E.turn()
+    c = net.deliverable()
+    if not c:
+        return False
+
+    def rank(ch):
+        l = ch[0]
+        pair = frozenset((getattr(l, "client_tub", None), getattr(l, "server_tub", None)))
+        return prefer.index(pair) if pair in prefer else len(prefer)
+    c.sort(key=rank)
+    l, what = c[0]
+    if not isinstance(what, tuple):
+        q = l.q[what]
+        k = 0
+        while k < len(q) and q[k] is not None:
+            k += 1
+        if k > 1:
+            q[:k] = [b"".join(q[:k])]
+    net.step(c[0])
+    return True
+
+
+GIFT_KINDS = ("bare", "twice-in-list", "two-calls")
+GIFT_POLICIES = ("gifter-owner-first", "recipient-owner-first", "gifter-recipient-first")
+
+
+def gift_drop_scenario(kind, policy, drop_after):
+    """-> (problems, total steps, nontrivial)"""
+    from harness import c08_impl as G
+    from foolscap.referenceable import RemoteReference
+    E.reset_clock()
+    net = Net()
+    pems = [p for _, p in pems_sorted(3)]
+    A, B, C = [make_tub(net, n, pems[i]) for i, n in enumerate("abc")]
+    fac, sink = G.Factory("a"), G.GiftSink()
+    fa, fc = A.registerReference(fac), C.registerReference(sink)
+    got = {}
+    for k, tub, f in (("fa", B, fa), ("sink", B, fc), ("ca", C, fa)):
+        tub.getReference(f).addCallback(lambda r, k=k: got.setdefault(k, r))
+    G.run_net(net)
+    if not all(isinstance(got.get(k), RemoteReference) for k in ("fa", "sink", "ca")):
+        return [("oracle/gift-setup-failed", "setup: %r" % (sorted(got),))], 0, 0
+    p = G._call(net, got["fa"], "make", 1)
+    if not isinstance(p, RemoteReference):
+        return [("oracle/gift-setup-failed", "factory returned %r" % (p,))], 0, 0
+    w = fac.made["a1"]
+    orig_id = id(w())
+    pairs = {"gifter-owner-first": [frozenset((B, A)), frozenset((C, A)), frozenset((B, C))],
+             "recipient-owner-first": [frozenset((C, A)), frozenset((B, A)), frozenset((B, C))],
+             "gifter-recipient-first": [frozenset((B, C)), frozenset((B, A)), frozenset((C, A))]}[policy]
+    res = []
+    if kind == "bare":
+        got["sink"].callRemote("take", p).addBoth(res.append)
+        ncalls = 1
+    elif kind == "twice-in-list":
+        got["sink"].callRemote("take", [p, p]).addBoth(res.append)
+        ncalls = 1
+    else:
+        got["sink"].callRemote("take", p).addBoth(res.append)
+        got["sink"].callRemote("take", [p]).addBoth(res.append)
+        ncalls = 2
+    problems = []
+    cfg = "gift %s, link priority %s, the gifter forgets its proxy after %s delivery steps" % (kind, policy, drop_after)
+    steps = 0
+    dropped = False
+    early = None
+    pin_dead = []
+    for i in range(400):
+        if not dropped and steps == drop_after:
+            p = None
+            gc.collect()
+            dropped = True
+        if w() is None and early is None and len(sink.seen) < ncalls:
+            early = steps
+        # the model's gproxy_alive: an outstanding gift (entry in a gift table of B) means the gifted proxy is alive
+        for b in B.brokers.values():
+            for (ob, clid) in list(b.myGifts):
+                t = ob.yourReferenceByCLID.get(clid)
+                if (t is None or t.ref is None or t.ref() is None) and not pin_dead:
+                    pin_dead.append(steps)
+        if not _step_one(net, pairs):
+            if dropped:
+                break
+            # nothing left to deliver before the requested drop point: drop now
+            p = None
+            gc.collect()
+            dropped = True
+            continue
+        steps += 1
+    for i in range(3):
+        if len(res) >= ncalls:
+            break
+        E.clock.advance(130)
+        G.run_net(net)
+    if pin_dead:
+        problems.append(("oracle/gift-outstanding-proxy-dead", "after %d delivery steps the gifter's gift table still counts an "
+                         "outstanding gift but the gifted proxy is dead (its release can reach the owner before the recipient's "
+                         "lookup); %s" % (pin_dead[0], cfg)))
+    if early is not None:
+        problems.append(("oracle/gift-released-early", "the owner let go of the object (alive only through its connection tables) after "
+                         "%d delivery steps, while the reference was still on its way to the third party; %s" % (early, cfg)))
+    if len(res) != ncalls or not all(isinstance(r, int) for r in res) or len(sink.seen) != ncalls:
+        problems.append(("oracle/gift-released-early" if w() is None else "oracle/gift-not-delivered",
+                         "the call(s) carrying the gift did not complete: answers %r, invocations %d, original alive: %s; %s"
+                         % ([getattr(r, "value", r) for r in res], len(sink.seen), w() is not None, cfg)))
+    else:
+        proxies = [x for _, items in sink.seen for x in items]
+        if not proxies or not all(isinstance(x, RemoteReference) for x in proxies):
+            problems.append(("oracle/gift-not-delivered", "the recipient got %r; %s" % (proxies, cfg)))
+        else:
+            if w() is None:
+                problems.append(("oracle/released-early", "the recipient holds a proxy but the owner has let go of the object; " + cfg))
+            r = G._call(net, proxies[0], "whoami")
+            if r != ["a1", orig_id]:
+                problems.append(("oracle/released-early", "a call through the recipient's proxy returned %r instead of reaching the "
+                                 "original; %s" % (getattr(r, "value", r), cfg)))
+        del proxies
+    # everybody lets go: nothing may pin the object, and the gift tables are empty
+    del sink.seen[:]
+    p = None
+    gc.collect()
+    G.run_net(net)
+    gc.collect()
+    G.run_net(net)
+    if not problems:
+        if w() is not None:
+            problems.append(("oracle/leak", "after gifter and recipient dropped their proxies and traffic drained the owner's object is "
+                             "still pinned; " + cfg))
+        for t in (A, B, C):
+            for b in t.brokers.values():
+                if b.myGifts or b.myGiftsByGiftID:
+                    problems.append(("oracle/leak", "a gift table is not empty after the introduction completed: %r; %s"
+                                     % (dict(b.myGifts), cfg)))
+    for t in (A, B, C):
+        t.stopService()
+    E.turn()
+    return problems, steps, 1
+
+
+def gift_drops(ctx):
+    gc.disable()
+    try:
+        with quiet():
+            seen = set()
+            for kind in GIFT_KINDS:
+                for policy in GIFT_POLICIES:
+                    try:
+                        _, total, _ = gift_drop_scenario(kind, policy, 10 ** 6)
+                    except Exception:
+                        import traceback
+                        ctx.fail("oracle/gift-exception", "gift/drop scenario raised: %s" % traceback.format_exc()[-800:],
+                                 replay=dict(scenario="gift-drop", kind=kind, policy=policy))
+                        return
+                    for k in range(0, total + 1):
+                        try:
+                            problems, _, ok = gift_drop_scenario(kind, policy, k)
+                        except Exception:
+                            import traceback
+                            problems, ok = [("oracle/gift-exception", "gift/drop scenario raised: %s" % traceback.format_exc()[-800:])], 0
+                        ctx.case(["gift-drop", kind, policy, k], nontrivial=bool(ok))
+                        ctx.hist("giftdrop_outcome", "held" if not problems else problems[0][0])
+                        for sig, text in problems:
+                            if sig not in seen:
+                                seen.add(sig)
+                                ctx.fail(sig, text, replay=dict(scenario="three parties: the gifter forgets its proxy at a chosen point of the "
+                                                                "introduction; the owner holds the object only through its tables",
+                                                                kind=kind, policy=policy, drop_after=k))
+    finally:
+        gc.enable()
